@@ -12,10 +12,13 @@ CAT = [
  ("se2_exp_taylor_B", "C02", "impl/se2/SE2Tangent_base.h", "B = Scalar(.5) * theta - Scalar(1. / 24.) * theta * theta_sq;", "B = Scalar(1. / 12.) * theta - Scalar(1. / 24.) * theta * theta_sq;"),
  ("so3_exp_small_angle_quat", "C02", "impl/so3/SO3Tangent_base.h", "return LieGroup(x()/Scalar(2), y()/Scalar(2), z()/Scalar(2), Scalar(1));", "return LieGroup(x(), y(), z(), Scalar(1));"),
  ("so3_log_hemisphere_revert", "C03", "impl/so3/SO3_base.h", "log_coeff = (w() < Scalar(0.0)) ? Scalar(-2.0) : Scalar(2.0);", "log_coeff = Scalar(2.0);"),
- ("tangent_plus_forwards_rplus", "C04", "impl/tangent_base.h", "TangentBase<_Derived>::plus(const LieGroup& m,\n                            OptJacobianRef J_mout_t,\n                            OptJacobianRef J_mout_m) const\n{\n  return m.lplus(", None),
+ ("tangent_plus_forwards_rplus", "C04", "impl/tangent_base.h", "                            OptJacobianRef J_mout_m) const\n{\n  return m.lplus(derived(), J_mout_m, J_mout_t);", "                            OptJacobianRef J_mout_m) const\n{\n  return m.rplus(derived(), J_mout_m, J_mout_t);"),
  ("between_jacobian_adj", "C05", "impl/lie_group_base.h", "*J_mc_ma = -(mc.inverse().adj());", "*J_mc_ma = -(mc.adj());"),
  ("so3_ljacinv_sign", "C06", "impl/so3/SO3Tangent_base.h", "(Scalar(1) / theta_sq - (Scalar(1) + cos(theta)) / (Scalar(2) * theta * sin(theta)))", "(Scalar(1) / theta_sq + (Scalar(1) + cos(theta)) / (Scalar(2) * theta * sin(theta)))"),
- ("se2_innerweights", "C07", "impl/se2/SE2Tangent_base.h", None, None),
+ ("se2_innerweights", "C07", "impl/se2/SE2Tangent_base.h", "Scalar(0), Scalar(0), Scalar(2) ).finished()", "Scalar(0), Scalar(0), Scalar(1) ).finished()"),
+ ("generator_accepts_dof", "C07", "impl/so3/SO3Tangent_base.h", None, None),
+ ("bundle_act_index", "C11", "impl/bundle/Bundle_base.h", "J_vout_m->template block<Element<_Idx>::Dim, Element<_Idx>::DoF>(\n        std::get<_Idx>(internal::traits<_Derived>::DimIdx),\n        std::get<_Idx>(internal::traits<_Derived>::DoFIdx)", "J_vout_m->template block<Element<_Idx>::Dim, Element<_Idx>::DoF>(\n        std::get<_Idx>(internal::traits<_Derived>::DimIdx),\n        std::get<_Idx>(internal::traits<_Derived>::DimIdx)"),
+ ("static_nonconst_cache", "C14", "impl/so2/SO2Tangent_base.h", None, None),
  ("compose_no_renorm", "C08", "impl/so3/SO3_base.h", "if (abs(ret_sqnorm-Scalar(1)) > Constants<Scalar>::eps)", "if (false && abs(ret_sqnorm-Scalar(1)) > Constants<Scalar>::eps)"),
  ("decasteljau_parenthesis_revert", "C17", "algorithms/decasteljau.h", "std::floor(double(trajectory.size()-degree)/double(degree-1))+1", "std::floor(double(trajectory.size()-degree)/double((degree-1)+1))"),
  ("cubic_revert", "C15", "algorithms/interpolation.h", "const auto l = ma.rplus(tab*h01).rplus(ta*h10);", "const auto l = ma.rplus(tab*h00).rplus(ta*h10);"),
